@@ -1,14 +1,29 @@
 """C06 - a successful Set is visible and is never lost without a reason."""
-import storecheck
+import os
+import storecheck, storelib, vlib
+
+
+def extra(work, v, thorough):
+    """The doorkeeper's Bloom filter: Bloom.tla model-checked, the real filter replayed call by call (BloomTrace)."""
+    mc = storelib.tlc_mc(work, "BloomMC.cfg", module="Bloom", tag="bloom_mc")
+    out = storelib.run_driver(work, "TestVerif_Bloom", "bloom", env={"VERIF_N": 400 if thorough else 40, "VERIF_SEED": vlib.seed()})
+    tf = os.path.join(out, "bloom.ndjson")
+    res = storelib.validate(work, tf, "bloom", module="BloomTrace", cfg="BloomTrace.cfg", timeout=1800)
+    storelib.report(v, work, "C06", tf, res)
+    if res["div"]:
+        print("note: %d Bloom filter histories leave Bloom.tla (model divergence, not a verdict)" % res["div"])
+    return {"bloom_states": mc.distinct, "bloom_transitions": mc.generated, "bloom_histories": res["traces"], "bloom_calls_compared": res["ops"],
+            "bloom_histories_leaving_the_spec": res["div"], "_states": mc.distinct, "_trans": mc.generated, "_traces": res["traces"]}
 
 PLAN = {
     "mc": [("StoreMC_acct.cfg", False), ("StoreMC_d16.cfg", False)],
     "sims": [("StoreSim_seq.cfg", 250, 2500, 91), ("StoreSim_seqdoor.cfg", 100, 800, 91), ("StoreSim_delta.cfg", 800, 6000, 46)],
     "drivers": [("TestVerif_StoreFree", 4, 30, "store_free.ndjson", None), ("TestVerif_StoreLoad", 20, 200, "store_load.ndjson", None)],
+    "extra": extra,
     "assumptions": [
         "sequential programs (one client, up to 7 operations over 2 keys, costs 1..MaxSize+1, TTL none/1/2 ticks, doorkeeper on and off) are random walks of Store.tla with the maintenance and ticker steps interleaved at will, executed under the virtual clock",
         "eviction without reason: an EVICTED removal while the sum over live entries of the largest cost they had since the last drain is within MaxSize (sound upper bound of what the policy may count)",
-        "doorkeeper rejections are taken from the hook event (the Bloom filter is not modelled); loader admissions are checked in C13",
+        "doorkeeper: a rejection is legal only for a key the shard's filter has not been shown since it was last cleared (the hook event carries shard and first-sighting counter); the filter itself is Bloom.tla (no false negatives, second sighting admitted), model-checked for 4-8 bits and replayed call by call on the real bf.Bloomfilter; loader admissions are also checked in C13",
     ],
 }
 
